@@ -79,7 +79,7 @@ def gen_mutants(relpath, text):
             return
         if src == text:
             return
-        out.append({'file': relpath, 'line': node.lineno, 'op': op, 'desc': desc, 'src': src})
+        out.append({'file': relpath, 'line': node.lineno, 'col': node.col_offset, 'op': op, 'desc': desc, 'src': src})
 
     def between(left, right, tok):
         """byte span of operator token `tok` between two operand nodes"""
@@ -265,7 +265,7 @@ def gen_mutants(relpath, text):
                 src = S.replace(ya, yb, S.seg(xa, xb))
                 S2 = Src(src)
                 src = S2.replace(xa, xb, S.seg(ya, yb))
-                out.append({'file': relpath, 'line': x.lineno, 'op': 'enum-swap',
+                out.append({'file': relpath, 'line': x.lineno, 'col': x.col_offset, 'op': 'enum-swap',
                             'desc': f'swap {S.seg(xa, xb)} and {S.seg(ya, yb)}', 'src': src})
     # de-duplicate identical results
     seen, uniq = set(), []
@@ -276,7 +276,29 @@ def gen_mutants(relpath, text):
             uniq.append(m)
     for i, m in enumerate(uniq):
         m['id'] = f"{pathlib.Path(m['file']).stem}:{m['line']}:{m['op']}:{i}"
+        m['sig'] = f"{m['file']}|{m['line']}|{m['col']}|{m['op']}|{m['desc']}"
     return uniq
+
+
+def load_survivors(path):
+    """survivor records with their mutated source; a compact file (no 'src') is re-materialised against the current tree"""
+    d = json.load(open(path))
+    surv = d['survivors'] if isinstance(d, dict) else d
+    if surv and 'src' in surv[0]:
+        return surv
+    by_file = {}
+    for m in surv:
+        by_file.setdefault(m['file'], []).append(m)
+    out = []
+    for f, ms in by_file.items():
+        if not (REPO / f).exists():
+            continue
+        cur = {g['sig']: g for g in gen_mutants(f, (REPO / f).read_text())}
+        for m in ms:
+            g = cur.get(m['sig'])
+            if g is not None:
+                out.append(dict(m, src=g['src'], id=m.get('id', g['id'])))
+    return out
 
 
 def package_files():
@@ -408,8 +430,7 @@ def main():
         json.dump({'total': len(ms), 'killed_by_suite': killed, 'survivors': surv}, open(a.out, 'w'))
         print(f'{len(ms)} mutants, {killed} killed by the suite, {len(surv)} survive -> {a.out}')
     elif a.cmd == 'detect':
-        d = json.load(open(a.inp))
-        surv = d['survivors']
+        surv = load_survivors(a.inp)
         if a.only:
             surv = [m for m in surv if re.search(a.only, m['id'])]
         props = [p for p in a.props.split(',') if p]
